@@ -178,6 +178,16 @@ def cases(ctx):
                         "src": f"{maps}*=0xc10010\n{mn} 0xc18020\nnop\n"})
             out.append({"kind": "branch:user-map-near", "rom": rom, "must_assemble": True, "spec": {"t": "none"},
                         "src": f"{maps}*=0xc18010\nzz_b:\nnop\n{mn} zz_b\n{mn} zz_f\nnop\nzz_f:\nrts\n"})
+    # ... also in the MIRROR banks of a region declared writable and mirrored (save RAM 0x70-0x7d seen again at 0xf0-0xfd)
+    maps_m = (".map identifier=1 bank_range=0x00,0x3f addr_range=0x8000,0xffff mask=0x8000\n"
+              ".map identifier=2 bank_range=0x70,0x7d addr_range=0,0x7fff mask=0x8000 writable=1 mirror_bank_range=0xf0,0xfd\n")
+    for rom in (None, "low", "high"):
+        for mn, op in br:
+            for ram in (0xF00000, 0x710100, 0xFD7F00):
+                out.append({"kind": "branch:user-map-mirror-ram-run", "rom": rom, "spec": {"t": "reject"},
+                            "src": f"{maps_m}*=0x008000\nnop\n@={ram:#08x}\nzz_l:\ndex\n{mn} zz_l\n"})
+                out.append({"kind": "branch:user-map-mirror-ram-target", "rom": rom, "spec": {"t": "reject"},
+                            "src": f"{maps_m}*=0x008000\n{mn} {ram + 0x10:#08x}\n"})
     # far targets whose distance is small only modulo the bank window / the bank / 64 KiB: out of reach, never wrapped
     for rom in ("low", "high"):
         bank = 0x01 if rom == "low" else 0x41
